@@ -92,6 +92,40 @@ def h(v):
     'pattern literal long'
     return 'pattern literal long', 'pattern literal long', 'pattern literal long'
 ''',
+    '__slots__ in every statement form and under compound statements of the class body': '''
+import sys
+class Direct:
+    __slots__ = ('coordinate_x', 'coordinate_y')
+    def get(self):
+        return getattr(self, 'coordinate_x'), getattr(self, 'coordinate_y'), 'coordinate_x', 'coordinate_y'
+class Versioned:
+    if sys.version_info >= (3, 8):
+        __slots__ = ('coordinate_x', 'coordinate_y', 'cached_value')
+    else:
+        __slots__ = ('coordinate_x', 'coordinate_y')
+    try:
+        __slots__ = __slots__ + ('extra_slot_name',)
+    except TypeError:
+        __slots__ = ('extra_slot_name', 'coordinate_x')
+    with sys.stdout:
+        __slots__ = ('extra_slot_name', 'cached_value')
+class Annotated:
+    __slots__: tuple = ('annotated_slot', 'annotated_other')
+    def get(self):
+        return 'annotated_slot', 'annotated_other', 'annotated_slot', 'annotated_other'
+class Augmented(Direct):
+    __slots__ = ()
+    __slots__ += ('augmented_slot', 'augmented_other')
+    def get(self):
+        return 'augmented_slot', 'augmented_other', 'augmented_slot', 'augmented_other', 'cached_value', 'extra_slot_name'
+class Unpacked:
+    __slots__, kind = ('unpacked_slot', 'unpacked_other'), 'unpacked_slot'
+    def get(self):
+        return 'unpacked_slot', 'unpacked_other', 'unpacked_slot', 'unpacked_other'
+def not_a_class():
+    __slots__ = ('coordinate_x', 'cached_value')
+    return __slots__
+''',
     'literals in every kind of pattern, in guards and in case bodies': '''
 def route(event, fallback=b'payload bytes long'):
     match event:
@@ -147,7 +181,15 @@ def dehoist(original_source, text):
         for i, st in enumerate(list(body)):
             if isinstance(st, ast.Assign) and len(st.targets) == 1 and isinstance(st.targets[0], ast.Name) and st.targets[0].id not in known and isinstance(st.value, ast.Constant):
                 nm = st.targets[0].id
-                if nm in aliases:
+                if nm in aliases and aliases[nm][1] is not scope:
+                    # another scope has an alias of the same spelling (siblings may share a name; a function may shadow an outer one it does not use):
+                    # give this scope's alias a spelling of its own so that the rest of the oracle can identify aliases by name
+                    fresh = '%s__%d' % (nm, len(aliases))
+                    for x in ast.walk(scope):
+                        if isinstance(x, ast.Name) and x.id == nm:
+                            x.id = fresh
+                    nm = fresh
+                elif nm in aliases:
                     problems.append('alias %s is assigned more than once' % nm)
                 aliases[nm] = (st.value, scope, i)
                 if isinstance(scope, ast.ClassDef):
@@ -160,6 +202,8 @@ def dehoist(original_source, text):
                     problems.append('alias %s is assigned after other statements of its scope (%s): a use before that line is unbound' % (nm, type(before[-1]).__name__))
                 if isinstance(scope, ast.Module) and not nm.startswith('_'):
                     problems.append('module-level alias %s does not start with an underscore' % nm)
+            elif isinstance(st, ast.Assign) and len(st.targets) == 1 and isinstance(st.targets[0], ast.Name) and st.targets[0].id in aliases and aliases[st.targets[0].id][1] is scope:
+                problems.append('alias %s is assigned again in the same scope' % st.targets[0].id)
         for st in ast.walk(scope):
             if st is not scope and isinstance(st, (ast.FunctionDef, ast.AsyncFunctionDef, ast.ClassDef)) and _direct_parent_scope(scope, st):
                 scan(st)
@@ -177,13 +221,35 @@ def dehoist(original_source, text):
                 break
 
     # places where a name would mean something else than the literal
+    def class_scope_statements(body):
+        # every statement that runs in the class scope itself: also inside if / try / with / for / while / match of the class body
+        for st in body:
+            yield st
+            if isinstance(st, (ast.FunctionDef, ast.AsyncFunctionDef, ast.ClassDef)):
+                continue
+            for f in ('body', 'orelse', 'finalbody', 'handlers', 'cases'):
+                sub = getattr(st, f, None)
+                if isinstance(sub, list):
+                    for x in sub:
+                        if isinstance(x, ast.stmt):
+                            for y in class_scope_statements([x]):
+                                yield y
+                        elif hasattr(x, 'body'):
+                            for y in class_scope_statements(x.body):
+                                yield y
     for n in ast.walk(out):
         if isinstance(n, ast.ClassDef):
-            for st in n.body:
-                if isinstance(st, ast.Assign) and any(isinstance(t, ast.Name) and t.id == '__slots__' for t in st.targets):
+            for st in class_scope_statements(n.body):
+                if isinstance(st, ast.Assign):
+                    targets = st.targets
+                elif isinstance(st, (ast.AnnAssign, ast.AugAssign)):
+                    targets = [st.target]
+                else:
+                    continue
+                if st.value is not None and any(isinstance(t, ast.Name) and t.id == '__slots__' for tg in targets for t in ast.walk(tg)):
                     used = sorted({x.id for x in ast.walk(st.value) if isinstance(x, ast.Name) and x.id in aliases})
                     if used:
-                        problems.append('the strings of %s.__slots__ are replaced by the aliases %s' % (n.name, used))
+                        problems.append('the strings of %s.__slots__ (%s) are replaced by the aliases %s' % (n.name, type(st).__name__, used))
     for a_, b_ in zip([x for x in ast.walk(orig) if isinstance(x, (ast.FunctionDef, ast.AsyncFunctionDef, ast.ClassDef, ast.Module))],
                       [x for x in ast.walk(out) if isinstance(x, (ast.FunctionDef, ast.AsyncFunctionDef, ast.ClassDef, ast.Module))]):
         if ast.get_docstring(a_, clean=False) != ast.get_docstring(b_, clean=False):
